@@ -320,6 +320,10 @@ fn bytes_case<B: Backend>(c: &BytesCase, acc: &mut Acc) -> R {
     Ok(())
 }
 
+pub fn shapes_pub<B: Backend>(seed: u64, tier: Tier) -> Vec<BytesCase> {
+    shapes::<B>(seed, tier)
+}
+
 /// the enumerated shapes for one back end
 fn shapes<B: Backend>(seed: u64, tier: Tier) -> Vec<BytesCase> {
     let ver = B::VER;
